@@ -72,7 +72,7 @@ class AveragerScenario:
         ENV.set_client(0)
         n = len(self.programs)
         shared = make() if self.mode == 'shared' else None
-        self.caches = {i + 1: (shared or make()) for i in range(n)}
+        self.caches = {i + 1: (shared if shared is not None else make()) for i in range(n)}
         self.objects = list({id(c): c for c in self.caches.values()}.values())
         self.avgs = {cid: dc.Averager(c, 'avg')
                      for cid, c in self.caches.items()}
